@@ -335,3 +335,178 @@ Theorem model_is_source_C02_Solve : forall A : Arith, @SrcEqSolve.model_is_sourc
 Proof. intros A. exact SrcEqSolve.model_is_source_Solve_lemma. Qed.
 Check model_is_source_C02_Solve : forall A : Arith, @SrcEqSolve.model_is_source_Solve A.
 Print Assumptions model_is_source_C02_Solve.
+(* ======================================================================================================
+   C02 (determinant and inverse), rounding half -- package round.  Append to Props/C02.v.
+   The determinant "to rounding accuracy", in the STANDARD MODEL of floating-point arithmetic (the same Gallina
+   [determinant] of Model/Solve.v at ARm): the computed determinant is +- the exact product of the diagonal of the
+   COMPUTED factor, up to n roundings: relative error gam n = n u / (1 - n u), every size with n u < 1.
+   The inverse: column-wise backward error of its two in-place triangular sweeps (second block below).
+   NOT covered: the factorisation (how far the computed factors are from exact factors of the input: growth factor of
+   Gaussian elimination with partial pivoting) -- hence nothing about X A - I or det(A) itself -- and the standard
+   model itself for IEEE binary64.
+   ====================================================================================================== *)
+From Coq Require Import Reals Lra Lia.
+From OV Require Import Base.RoundModel Proofs.Matrix Proofs.RoundMatvec Proofs.RoundDet Proofs.RoundFlx Proofs.RoundExamples.
+
+Theorem determinant_product_error : forall (u : R), (0 <= u < 1)%R ->
+  forall (fadd fsub fmul fdiv : R -> R -> R),
+  (forall x y : R, exists d : R, (Rabs d <= u)%R /\ fmul x y = (x * y * (1 + d))%R) ->
+  forall (m lu perm : Model.Matrix.matrix (ARm fadd fsub fmul fdiv)) (piv : nat) (d : R),
+  Proofs.Matrix.wf m -> (INR (Model.Matrix.rows m) * u < 1)%R ->
+  Model.Solve.lu_decomp m = Base.Panic.Ok (lu, piv, perm) -> Model.Solve.determinant m = Base.Panic.Ok d ->
+  exists th : R, (Rabs th <= gam u (Model.Matrix.rows m))%R /\
+    d = ((if Nat.even piv then 1 else -1) * Rprod (Model.Matrix.rows m) (fun i => rentry fadd fsub fmul fdiv lu i i) * (1 + th))%R.
+Proof. intros u Hu fadd fsub fmul fdiv Hm m lu perm piv d. exact (determinant_product_error_lemma u Hu fadd fsub fmul fdiv Hm m lu perm piv d). Qed.
+Check determinant_product_error : forall (u : R), (0 <= u < 1)%R ->
+  forall (fadd fsub fmul fdiv : R -> R -> R),
+  (forall x y : R, exists d : R, (Rabs d <= u)%R /\ fmul x y = (x * y * (1 + d))%R) ->
+  forall (m lu perm : Model.Matrix.matrix (ARm fadd fsub fmul fdiv)) (piv : nat) (d : R),
+  Proofs.Matrix.wf m -> (INR (Model.Matrix.rows m) * u < 1)%R ->
+  Model.Solve.lu_decomp m = Base.Panic.Ok (lu, piv, perm) -> Model.Solve.determinant m = Base.Panic.Ok d ->
+  exists th : R, (Rabs th <= gam u (Model.Matrix.rows m))%R /\
+    d = ((if Nat.even piv then 1 else -1) * Rprod (Model.Matrix.rows m) (fun i => rentry fadd fsub fmul fdiv lu i i) * (1 + th))%R.
+Print Assumptions determinant_product_error.
+(* [[2,1],[0,3]] in the arithmetic that rounds every operation to 53 bits: lu_decomp returns ex_lu2, determinant answers *)
+Example determinant_product_error_nonvacuous :
+  (0 <= ux < 1)%R /\
+  (forall x y : R, exists d : R, (Rabs d <= ux)%R /\ xmul x y = (x * y * (1 + d))%R) /\
+  Proofs.Matrix.wf ex_m2 /\ (INR (Model.Matrix.rows ex_m2) * ux < 1)%R /\
+  Model.Solve.lu_decomp ex_m2 = Base.Panic.Ok (ex_lu2, 0%nat, ex_id2) /\ exists d, Model.Solve.determinant ex_m2 = Base.Panic.Ok d.
+Proof.
+  split; [exact ux_range|]. split; [exact xmul_ok|]. split; [reflexivity|]. split; [exact ex_size2|].
+  split; [exact ex_lu_decomp|exact ex_determinant].
+Qed.
+
+(* ---- the inverse: column-wise backward error of its two triangular sweeps, standard model ----
+   Every column x_j of the computed inverse satisfies (L + dL_j) y_j = P e_j, (U + dU_j) x_j = y_j with the COMPUTED
+   factors L (unit lower), U (upper) of lu_decomp and |dL_j| <= gam n |L|, |dU_j| <= gam n |U| (Proofs/RoundInverse.v:
+   the in-place sweeps have the closed form of forward/back substitution over ANY arithmetic, [inverse_trace]).
+   (Names are fully qualified: this file has mathcomp's matrix/nth/< in scope.) *)
+From OV Require Import Proofs.RoundBacksolve Proofs.RoundInverse Proofs.RoundExamples2.
+
+Theorem inverse_columns_backward_error : forall (u : R), (0 <= u < 1)%R ->
+  forall (fadd fsub fmul fdiv : R -> R -> R),
+  (forall x y : R, exists d : R, (Rabs d <= u)%R /\ fsub x y = ((x - y) * (1 + d))%R) ->
+  (forall x y : R, exists d : R, (Rabs d <= u)%R /\ fmul x y = (x * y * (1 + d))%R) ->
+  (forall x y : R, y <> 0%R -> exists d : R, (Rabs d <= u)%R /\ fdiv x y = (x / y * (1 + d))%R) ->
+  forall (m lu perm inv : Model.Matrix.matrix (ARm fadd fsub fmul fdiv)) (piv : nat),
+  Proofs.Matrix.wf m -> (INR (Model.Matrix.rows m) * u < 1)%R ->
+  Model.Solve.lu_decomp m = Base.Panic.Ok (lu, piv, perm) ->
+  (forall k, Peano.lt k (Model.Matrix.rows m) -> rentry fadd fsub fmul fdiv lu k k <> 0%R) ->
+  Model.Solve.inverse m = Base.Panic.Ok inv ->
+  Proofs.Matrix.wf inv /\ Model.Matrix.rows inv = Model.Matrix.rows m /\ Model.Matrix.cols inv = Model.Matrix.rows m /\
+  forall j, Peano.lt j (Model.Matrix.rows m) ->
+    exists (y : list R) (dL dU : nat -> nat -> R),
+      List.length y = Model.Matrix.rows m /\
+      (forall i k, Peano.lt i (Model.Matrix.rows m) -> Peano.lt k (Model.Matrix.rows m) ->
+         (Rabs (dL i k) <= gam u (Model.Matrix.rows m) * Rabs (tril1 fadd fsub fmul fdiv lu i k))%R) /\
+      (forall i k, Peano.lt i (Model.Matrix.rows m) -> Peano.lt k (Model.Matrix.rows m) ->
+         (Rabs (dU i k) <= gam u (Model.Matrix.rows m) * Rabs (triu fadd fsub fmul fdiv lu i k))%R) /\
+      (forall i, Peano.lt i (Model.Matrix.rows m) ->
+         Rsum (Model.Matrix.rows m) (fun k => ((tril1 fadd fsub fmul fdiv lu i k + dL i k) * List.nth k y 0)%R)
+         = rentry fadd fsub fmul fdiv perm i j) /\
+      (forall i, Peano.lt i (Model.Matrix.rows m) ->
+         Rsum (Model.Matrix.rows m) (fun k => ((triu fadd fsub fmul fdiv lu i k + dU i k) * rentry fadd fsub fmul fdiv inv k j)%R)
+         = List.nth i y 0%R).
+Proof. intros u Hu fadd fsub fmul fdiv Hs Hm Hd m lu perm inv piv. exact (inverse_columns_backward_error_lemma u Hu fadd fsub fmul fdiv Hs Hm Hd m lu perm inv piv). Qed.
+Check inverse_columns_backward_error : forall (u : R), (0 <= u < 1)%R ->
+  forall (fadd fsub fmul fdiv : R -> R -> R),
+  (forall x y : R, exists d : R, (Rabs d <= u)%R /\ fsub x y = ((x - y) * (1 + d))%R) ->
+  (forall x y : R, exists d : R, (Rabs d <= u)%R /\ fmul x y = (x * y * (1 + d))%R) ->
+  (forall x y : R, y <> 0%R -> exists d : R, (Rabs d <= u)%R /\ fdiv x y = (x / y * (1 + d))%R) ->
+  forall (m lu perm inv : Model.Matrix.matrix (ARm fadd fsub fmul fdiv)) (piv : nat),
+  Proofs.Matrix.wf m -> (INR (Model.Matrix.rows m) * u < 1)%R ->
+  Model.Solve.lu_decomp m = Base.Panic.Ok (lu, piv, perm) ->
+  (forall k, Peano.lt k (Model.Matrix.rows m) -> rentry fadd fsub fmul fdiv lu k k <> 0%R) ->
+  Model.Solve.inverse m = Base.Panic.Ok inv ->
+  Proofs.Matrix.wf inv /\ Model.Matrix.rows inv = Model.Matrix.rows m /\ Model.Matrix.cols inv = Model.Matrix.rows m /\
+  forall j, Peano.lt j (Model.Matrix.rows m) ->
+    exists (y : list R) (dL dU : nat -> nat -> R),
+      List.length y = Model.Matrix.rows m /\
+      (forall i k, Peano.lt i (Model.Matrix.rows m) -> Peano.lt k (Model.Matrix.rows m) ->
+         (Rabs (dL i k) <= gam u (Model.Matrix.rows m) * Rabs (tril1 fadd fsub fmul fdiv lu i k))%R) /\
+      (forall i k, Peano.lt i (Model.Matrix.rows m) -> Peano.lt k (Model.Matrix.rows m) ->
+         (Rabs (dU i k) <= gam u (Model.Matrix.rows m) * Rabs (triu fadd fsub fmul fdiv lu i k))%R) /\
+      (forall i, Peano.lt i (Model.Matrix.rows m) ->
+         Rsum (Model.Matrix.rows m) (fun k => ((tril1 fadd fsub fmul fdiv lu i k + dL i k) * List.nth k y 0)%R)
+         = rentry fadd fsub fmul fdiv perm i j) /\
+      (forall i, Peano.lt i (Model.Matrix.rows m) ->
+         Rsum (Model.Matrix.rows m) (fun k => ((triu fadd fsub fmul fdiv lu i k + dU i k) * rentry fadd fsub fmul fdiv inv k j)%R)
+         = List.nth i y 0%R).
+Print Assumptions inverse_columns_backward_error.
+(* [[2,1],[0,3]] in the arithmetic that rounds every operation to 53 bits: the factors have a nonzero diagonal, inverse answers *)
+Example inverse_columns_backward_error_nonvacuous :
+  (0 <= ux < 1)%R /\ Proofs.Matrix.wf ex_m2 /\ (INR (Model.Matrix.rows ex_m2) * ux < 1)%R /\
+  Model.Solve.lu_decomp ex_m2 = Base.Panic.Ok (ex_lu2, 0%nat, ex_id2) /\
+  (forall k, Peano.lt k (Model.Matrix.rows ex_m2) -> rentry xadd xsub xmul xdiv ex_lu2 k k <> 0%R) /\
+  exists inv, Model.Solve.inverse ex_m2 = Base.Panic.Ok inv.
+Proof.
+  split; [exact ux_range|]. split; [reflexivity|]. split; [exact ex_size2|]. split; [exact ex_lu_decomp|].
+  split; [exact ex_lu2_diag|exact ex_inverse].
+Qed.
+
+(* ---- the inverse as a whole: every column is the exact column of the inverse of a nearby matrix ----
+   (A + dA_j) x_j = e_j with |dA_j| <= (3 gam n + gam n^2) P^T |L^||U^| (Higham sec. 14.1): Thm 9.3 for the factorisation
+   (Proofs/RoundLUError.v) combined with the column sweeps above.  In terms of the COMPUTED |L^||U^|: the comparison with
+   |A| (growth factor) is not made, and since dA_j depends on the column nothing is claimed about X A - I. *)
+From OV Require Import Proofs.RoundInverseLU.
+
+Theorem inverse_backward_error : forall (u : R), (0 <= u < 1)%R ->
+  forall (fadd fsub fmul fdiv : R -> R -> R),
+  (forall x y : R, exists d : R, (Rabs d <= u)%R /\ fsub x y = ((x - y) * (1 + d))%R) ->
+  (forall x y : R, exists d : R, (Rabs d <= u)%R /\ fmul x y = (x * y * (1 + d))%R) ->
+  (forall x y : R, y <> 0%R -> exists d : R, (Rabs d <= u)%R /\ fdiv x y = (x / y * (1 + d))%R) ->
+  forall (m lu perm inv : Model.Matrix.matrix (ARm fadd fsub fmul fdiv)) (piv : nat),
+  Proofs.Matrix.wf m -> (INR (Model.Matrix.rows m) * u < 1)%R ->
+  Model.Solve.lu_decomp m = Base.Panic.Ok (lu, piv, perm) ->
+  (forall k, Peano.lt k (Model.Matrix.rows m) -> rentry fadd fsub fmul fdiv lu k k <> 0%R) ->
+  Model.Solve.inverse m = Base.Panic.Ok inv ->
+  Proofs.Matrix.wf inv /\ Model.Matrix.rows inv = Model.Matrix.rows m /\ Model.Matrix.cols inv = Model.Matrix.rows m /\
+  exists tau : nat -> nat,
+    (forall r, Peano.lt r (Model.Matrix.rows m) -> Peano.lt (tau r) (Model.Matrix.rows m)) /\
+    (forall r r', Peano.lt r (Model.Matrix.rows m) -> Peano.lt r' (Model.Matrix.rows m) -> tau r = tau r' -> r = r') /\
+    forall j, Peano.lt j (Model.Matrix.rows m) ->
+      exists dA : nat -> nat -> R,
+        (forall i c, Peano.lt i (Model.Matrix.rows m) -> Peano.lt c (Model.Matrix.rows m) ->
+           (Rabs (dA i c) <= (3 * gam u (Model.Matrix.rows m) + gam u (Model.Matrix.rows m) * gam u (Model.Matrix.rows m))
+                             * Rsum (Model.Matrix.rows m)
+                                 (fun k => Rabs (tril1 fadd fsub fmul fdiv lu i k) * Rabs (triu fadd fsub fmul fdiv lu k c)))%R) /\
+        forall i, Peano.lt i (Model.Matrix.rows m) ->
+          Rsum (Model.Matrix.rows m)
+            (fun c => ((rentry fadd fsub fmul fdiv m (tau i) c + dA i c) * rentry fadd fsub fmul fdiv inv c j)%R)
+          = if Nat.eqb j (tau i) then 1%R else 0%R.
+Proof. intros u Hu fadd fsub fmul fdiv Hs Hm Hd m lu perm inv piv. exact (inverse_backward_error_lemma u Hu fadd fsub fmul fdiv Hs Hm Hd m lu perm inv piv). Qed.
+Check inverse_backward_error : forall (u : R), (0 <= u < 1)%R ->
+  forall (fadd fsub fmul fdiv : R -> R -> R),
+  (forall x y : R, exists d : R, (Rabs d <= u)%R /\ fsub x y = ((x - y) * (1 + d))%R) ->
+  (forall x y : R, exists d : R, (Rabs d <= u)%R /\ fmul x y = (x * y * (1 + d))%R) ->
+  (forall x y : R, y <> 0%R -> exists d : R, (Rabs d <= u)%R /\ fdiv x y = (x / y * (1 + d))%R) ->
+  forall (m lu perm inv : Model.Matrix.matrix (ARm fadd fsub fmul fdiv)) (piv : nat),
+  Proofs.Matrix.wf m -> (INR (Model.Matrix.rows m) * u < 1)%R ->
+  Model.Solve.lu_decomp m = Base.Panic.Ok (lu, piv, perm) ->
+  (forall k, Peano.lt k (Model.Matrix.rows m) -> rentry fadd fsub fmul fdiv lu k k <> 0%R) ->
+  Model.Solve.inverse m = Base.Panic.Ok inv ->
+  Proofs.Matrix.wf inv /\ Model.Matrix.rows inv = Model.Matrix.rows m /\ Model.Matrix.cols inv = Model.Matrix.rows m /\
+  exists tau : nat -> nat,
+    (forall r, Peano.lt r (Model.Matrix.rows m) -> Peano.lt (tau r) (Model.Matrix.rows m)) /\
+    (forall r r', Peano.lt r (Model.Matrix.rows m) -> Peano.lt r' (Model.Matrix.rows m) -> tau r = tau r' -> r = r') /\
+    forall j, Peano.lt j (Model.Matrix.rows m) ->
+      exists dA : nat -> nat -> R,
+        (forall i c, Peano.lt i (Model.Matrix.rows m) -> Peano.lt c (Model.Matrix.rows m) ->
+           (Rabs (dA i c) <= (3 * gam u (Model.Matrix.rows m) + gam u (Model.Matrix.rows m) * gam u (Model.Matrix.rows m))
+                             * Rsum (Model.Matrix.rows m)
+                                 (fun k => Rabs (tril1 fadd fsub fmul fdiv lu i k) * Rabs (triu fadd fsub fmul fdiv lu k c)))%R) /\
+        forall i, Peano.lt i (Model.Matrix.rows m) ->
+          Rsum (Model.Matrix.rows m)
+            (fun c => ((rentry fadd fsub fmul fdiv m (tau i) c + dA i c) * rentry fadd fsub fmul fdiv inv c j)%R)
+          = if Nat.eqb j (tau i) then 1%R else 0%R.
+Print Assumptions inverse_backward_error.
+Example inverse_backward_error_nonvacuous :   (* same instance as inverse_columns_backward_error_nonvacuous *)
+  (0 <= ux < 1)%R /\ Proofs.Matrix.wf ex_m2 /\ (INR (Model.Matrix.rows ex_m2) * ux < 1)%R /\
+  Model.Solve.lu_decomp ex_m2 = Base.Panic.Ok (ex_lu2, 0%nat, ex_id2) /\
+  (forall k, Peano.lt k (Model.Matrix.rows ex_m2) -> rentry xadd xsub xmul xdiv ex_lu2 k k <> 0%R) /\
+  exists inv, Model.Solve.inverse ex_m2 = Base.Panic.Ok inv.
+Proof.
+  split; [exact ux_range|]. split; [reflexivity|]. split; [exact ex_size2|]. split; [exact ex_lu_decomp|].
+  split; [exact ex_lu2_diag|exact ex_inverse].
+Qed.
